@@ -47,4 +47,5 @@ def main():
             print("%-8s %s" % ("OK" if r == z3.unsat else str(r).upper(), " ".join(leaf.sexpr().split())[:2600]))
 
 
-main()
+if __name__ == "__main__":
+    main()
